@@ -2,11 +2,13 @@ import Driver.Util
 import Driver.Suites.Blocks
 import Driver.Suites.Request
 import Driver.Suites.Readpath
+import Driver.Suites.WQ
 /-! Table of suites known to the driver.  One line per suite (merge=union friendly). -/
 namespace Driver
 def registry : List Suite := [
   Suites.Blocks.suite,
   Suites.Request.suite,
   Suites.Readpath.suite,
+  Suites.WQ.suite,
 ]
 end Driver
